@@ -3,7 +3,6 @@
 
 use serde::{Deserialize, Serialize};
 use std::cell::RefCell;
-use std::rc::Rc;
 
 pub trait Payload: Clone + PartialEq + std::fmt::Debug + 'static {
     type Ctx: Clone + Default;
@@ -26,6 +25,8 @@ pub trait Payload: Clone + PartialEq + std::fmt::Debug + 'static {
     fn clones_alive(_ctx: &Self::Ctx) -> i64 {
         0
     }
+    /// the world that used this context is gone
+    fn ctx_done(_ctx: &Self::Ctx) {}
     /// `par_iter()` visits exactly the nodes of `iter()` (only `Plain` in the `par_iter` build)
     fn par_check(_arena: &indextree::Arena<Self>) -> Option<Result<usize, String>> {
         None
@@ -125,8 +126,36 @@ pub struct LedgerInner {
     pub clones_alive: i64,
 }
 
-#[derive(Clone, Default, Debug)]
-pub struct Ledger(pub Rc<RefCell<LedgerInner>>);
+thread_local! {
+    /// ledgers live in a per-thread registry and payloads only hold an index into it: a payload that is
+    /// (wrongly) dropped twice then merely logs twice instead of corrupting a reference count
+    static LEDGERS: RefCell<Vec<LedgerInner>> = const { RefCell::new(Vec::new()) };
+}
+
+#[derive(Clone, Copy, Debug)]
+pub struct Ledger(usize);
+
+impl Default for Ledger {
+    fn default() -> Self {
+        LEDGERS.with(|l| {
+            let mut l = l.borrow_mut();
+            l.push(LedgerInner::default());
+            Ledger(l.len() - 1)
+        })
+    }
+}
+
+impl Ledger {
+    fn with<R>(&self, f: impl FnOnce(&mut LedgerInner) -> R) -> Option<R> {
+        LEDGERS.try_with(|l| l.try_borrow_mut().ok().and_then(|mut l| l.get_mut(self.0).map(f))).ok().flatten()
+    }
+    /// forget the log of a finished world (keeps the registry small)
+    pub fn release(&self) {
+        self.with(|i| {
+            i.drop_log = Vec::new();
+        });
+    }
+}
 
 #[derive(Debug)]
 pub struct Tracked {
@@ -144,21 +173,21 @@ impl PartialEq for Tracked {
 
 impl Clone for Tracked {
     fn clone(&self) -> Self {
-        self.ledger.0.borrow_mut().clones_alive += 1;
-        Tracked { serial: self.serial, val: self.val, origin: false, ledger: self.ledger.clone() }
+        self.ledger.with(|l| l.clones_alive += 1);
+        Tracked { serial: self.serial, val: self.val, origin: false, ledger: self.ledger }
     }
 }
 
 impl Drop for Tracked {
     fn drop(&mut self) {
-        // never panic in drop: try_borrow_mut
-        if let Ok(mut l) = self.ledger.0.try_borrow_mut() {
-            if self.origin {
-                l.drop_log.push(self.serial);
+        let (origin, serial) = (self.origin, self.serial);
+        self.ledger.with(|l| {
+            if origin {
+                l.drop_log.push(serial);
             } else {
                 l.clones_alive -= 1;
             }
-        }
+        });
     }
 }
 
@@ -166,11 +195,11 @@ impl Payload for Tracked {
     type Ctx = Ledger;
     const TRACKS_DROPS: bool = true;
     fn make(ctx: &Ledger, serial: u64, val: u32) -> Self {
-        Tracked { serial, val, origin: true, ledger: ctx.clone() }
+        Tracked { serial, val, origin: true, ledger: *ctx }
     }
     fn make_untracked(ctx: &Ledger, serial: u64, val: u32) -> Self {
-        ctx.0.borrow_mut().clones_alive += 1;
-        Tracked { serial, val, origin: false, ledger: ctx.clone() }
+        ctx.with(|l| l.clones_alive += 1);
+        Tracked { serial, val, origin: false, ledger: *ctx }
     }
     fn serial(&self) -> u64 {
         self.serial
@@ -182,13 +211,16 @@ impl Payload for Tracked {
         self.val = v
     }
     fn drop_log_len(ctx: &Ledger) -> usize {
-        ctx.0.borrow().drop_log.len()
+        ctx.with(|l| l.drop_log.len()).unwrap_or(0)
     }
     fn drop_log_from(ctx: &Ledger, from: usize) -> Vec<u64> {
-        ctx.0.borrow().drop_log[from..].to_vec()
+        ctx.with(|l| l.drop_log[from.min(l.drop_log.len())..].to_vec()).unwrap_or_default()
+    }
+    fn ctx_done(ctx: &Ledger) {
+        ctx.release();
     }
     fn clones_alive(ctx: &Ledger) -> i64 {
-        ctx.0.borrow().clones_alive
+        ctx.with(|l| l.clones_alive).unwrap_or(0)
     }
 }
 
